@@ -338,9 +338,7 @@ def desSeen (p : Policy2) (d : Desc) : List Des :=
 def seen (p : Policy2) (d : Desc) : Desc := { d with des := desSeen p d }
 
 /-- image segment of category SAR / SARIQ (everything the model knows except `other`) -/
-def isSar : Img → Bool
-  | .other => false
-  | _ => true
+def isSar (i : Img) : Bool := i.hdr.sar
 
 /-- ComplexNITFDetails + ComplexNITFReader for a path, handler of final_attempt included -/
 def finalDeep (p : Policy2) (d : Desc) : Decision :=
@@ -421,5 +419,98 @@ def writtenPlace (w : World) : Bool :=
 
 /-- a string / file without any signature some opener knows: not HDF5, GFF or TIFF-like leading bytes -/
 def noVendorHead (w : World) : Bool := w.head == .plain || w.head == .binary
+
+/-! ## the image-segment acceptance of the fallback complex opener as a regenerated table
+
+  `ComplexNITFDetails._check_band_details` (other_nitf.py) is a chain of tests on one image subheader that either return after
+  appending a status, or log an error, append `False` and go on (`mark`).  `extract_sicd(image_header, ..)` in front of the band
+  tests raises ValueError for a PVTYPE its `get_image_data` does not handle.  translate/gen_openers.py regenerates `bandTab`
+  from both functions; Props/C14Vendor.lean proves `runBand bandTab = checkBand` (the function `finalAttempt` is built on). -/
+
+inductive BAtom where
+  | icatSar      -- image_header.ICAT.strip() in ['SAR', 'SARIQ']
+  | pvC | pvR | pvSI | pvINT
+  | oddBands     -- len(bands) % 2 == 1
+  | hasPair      -- bands[0], bands[1] exist
+  | orderValid   -- bands[0].ISUBCAT + bands[1].ISUBCAT in ['IQ', 'QI', 'MP', 'PM']
+  | twoBands     -- len(bands) == 2
+  | pairsFollow  -- every later pair repeats the first
+  | orderIQ | orderMP
+  deriving DecidableEq, Repr
+
+def evalBAtom (h : ImgHdr) : BAtom → Bool
+  | .icatSar => h.sar
+  | .pvC => h.pv == .c
+  | .pvR => h.pv == .r
+  | .pvSI => h.pv == .si
+  | .pvINT => h.pv == .int
+  | .oddBands => h.bands.length % 2 == 1
+  | .hasPair => decide (2 ≤ h.bands.length)
+  | .orderValid => match h.bands with | x :: y :: _ => validOrder x y | _ => false
+  | .twoBands => h.bands.length == 2
+  | .pairsFollow => match h.bands with | x :: y :: rest => pairsFollow x y rest | _ => true
+  | .orderIQ => match h.bands with | x :: y :: _ => orderIQ x y | _ => false
+  | .orderMP => match h.bands with | x :: y :: _ => orderMP x y | _ => false
+
+inductive BCond where
+  | tt
+  | atom (a : BAtom)
+  | not (c : BCond)
+  | and (a b : BCond)
+  | or (a b : BCond)
+  deriving DecidableEq, Repr
+
+def evalBCond (h : ImgHdr) : BCond → Bool
+  | .tt => true
+  | .atom a => evalBAtom h a
+  | .not c => !evalBCond h c
+  | .and a b => evalBCond h a && evalBCond h b
+  | .or a b => evalBCond h a || evalBCond h b
+
+inductive BOut where
+  | skip               -- segment_status.append(False); return
+  | take               -- segment_status.append(True); sicd_meta.append(sicd); segment_bands.append(..); return (or end of function)
+  | mark               -- segment_status.append(False) WITHOUT return
+  | raise (e : Exc)
+  deriving DecidableEq, Repr
+
+structure BStep where
+  cond : BCond
+  out : BOut
+  deriving DecidableEq, Repr
+
+/-- run the chain: the first firing step that ends the function decides; a firing `mark` is remembered -/
+def runBand (h : ImgHdr) : List BStep → Bool → BandOut
+  | [], _ => .skip
+  | s :: rest, marked =>
+    if evalBCond h s.cond then
+      match s.out with
+      | .skip => .skip
+      | .take => if marked then .muddled else .take
+      | .mark => runBand h rest true
+      | .raise e => if e == .value then .refuse else .crash
+    else runBand h rest marked
+
+@[reducible] def ba (x : BAtom) : BCond := .atom x
+@[reducible] def bn (x : BAtom) : BCond := .not (.atom x)
+
+def bandTab : List BStep :=
+  [ ⟨bn .icatSar, .skip⟩,
+    ⟨.and (.and (bn .pvC) (bn .pvR)) (bn .pvSI), .raise .value⟩,          -- extract_sicd -> get_image_data: unhandled PVTYPE
+    ⟨.and (ba .oddBands) (bn .pvC), .skip⟩,
+    ⟨ba .oddBands, .take⟩,
+    ⟨bn .hasPair, .raise .index⟩,                                         -- bands[0].ISUBCAT + bands[1].ISUBCAT
+    ⟨bn .orderValid, .skip⟩,
+    ⟨ba .twoBands, .take⟩,
+    ⟨bn .pairsFollow, .skip⟩,
+    ⟨.and (ba .orderIQ) (.not (.or (ba .pvSI) (ba .pvR))), .mark⟩,
+    ⟨.and (ba .orderMP) (.not (.or (ba .pvINT) (ba .pvR))), .mark⟩,
+    ⟨.tt, .take⟩ ]
+
+/-- an image segment with real-valued pixels and no complex band pairing: PVTYPE other than C, at least one band, and not
+    (an even number of bands whose first two are labelled I/Q, Q/I, M/P or P/M) -/
+def realValued (h : ImgHdr) : Bool :=
+  h.pv != .c && !h.bands.isEmpty &&
+    !(h.bands.length % 2 == 0 && (match h.bands with | x :: y :: _ => validOrder x y | _ => false))
 
 end Sarpy.Spec.Opener
